@@ -2820,6 +2820,8 @@ func (db *DB) Export(ctx context.Context, dst io.Writer) (ltx.Pos, error) {
 	}
 
 	// Write page frames.
+	var chksum ltx.Checksum
+	lockPgno := ltx.LockPgno(pageSize)
 	pageData := make([]byte, pageSize)
 	for pgno := uint32(1); pgno <= pageN; pgno++ {
 		// Read from WAL if page exists in offset map. Otherwise read from DB.
@@ -2840,6 +2842,16 @@ func (db *DB) Export(ctx context.Context, dst io.Writer) (ltx.Pos, error) {
 		if _, err := dst.Write(pageData); err != nil {
 			return pos, fmt.Errorf("write page %d: %w", pgno, err)
 		}
+
+		if pgno != lockPgno {
+			chksum ^= ltx.ChecksumPage(pgno, pageData)
+		}
+	}
+
+	// Ensure the exported pages are the image of the position, e.g. that no
+	// uncommitted page of an interrupted transaction has been read.
+	if postApplyChecksum := ltx.ChecksumFlag | chksum; !pos.IsZero() && postApplyChecksum != pos.PostApplyChecksum {
+		return pos, fmt.Errorf("export checksum mismatch at tx %s: %x <> %x", pos.TXID.String(), postApplyChecksum, pos.PostApplyChecksum)
 	}
 
 	return pos, nil
